@@ -235,6 +235,19 @@ func c03Bad(spec cfg.Spec, src []byte) (string, string, string) {
 }
 
 func replayC03(c *core.Ctx, v *core.Violation) (bool, string) {
+	if steps := arenaFromScript(v.Script); steps != nil {
+		spec := specOf(v.Config)
+		outs := arenaRun(spec.Build(), &srcArena{}, steps)
+		for i, o := range outs {
+			if o == nil {
+				continue
+			}
+			if cl, lo, d := c03Verdict(spec, o, nil); cl != "" {
+				return true, fmt.Sprintf("step %d of the recycled-buffer history: %s %s %s", i+1, cl, lo, d)
+			}
+		}
+		return false, "every output of the history is inert"
+	}
 	cl, lo, d := c03Bad(specOf(v.Config), v.Input)
 	return cl != "", cl + " " + lo + " " + d
 }
@@ -348,5 +361,55 @@ func runC03(c *core.Ctx) {
 		sp := cfg.Spec{Ext: []int{cfg.ExtCore, cfg.ExtAll, cfg.ExtGFM}[r.Intn(3)], Attribute: true, AutoHeadingID: r.Intn(2) == 0, XHTML: r.Intn(2) == 0}
 		c03Check(c, pool, sp, src)
 		c.Count("attribute_block_documents", 1)
+	}
+	c03Arena(c, pool, safe)
+}
+
+// c03Arena: a caller that recycles its read buffer. Document A puts a harmless payload into a slot (destination, title,
+// description, info string, attribute value, label, cell, text); it is converted from the buffer; the buffer is overwritten
+// with a document of the same length that has markup-significant bytes exactly where the payload was; then A is converted
+// again, from a slice of its own and from the buffer. Anything the instance kept of the first conversion that still points
+// into the buffer now reads those bytes - and must not reach the output unescaped. Every output goes through the tokenizer.
+var c03ArenaTmpl = []string{"[a](/%P)", "![a](/%P)", "[a](/u \"%P\")", "![%P](/u)", "```%P\ncode\n```", "# h {#%P}", "# h {title=\"%P\"}", "<http://a.b/%P>",
+	"[a][r]\n\n[r]: /%P 'x'", "[a][r]\n\n[r]: /u '%P'", "| %P |\n|---|\n| b |", "x[^1]\n\n[^1]: %P", "`%P`", "*%P*", "%P", "## %P", "- [x] %P", "t\n: %P", "[%P]\n\n[%P]: /u",
+	"[a](%P)", "![a](%P 'x')", "www.a.b/%P", "http://a.b/%P"}
+var c03ArenaHostile = []string{"\"><script>alert(1)</scri", "x\" onmouseover=\"alert(1)", "<!-- c --><b onx=1>&bog;", "'><img src=x onerror=al>", "&#0;&#xD800;\"<\">&&&&&&<<<"}
+
+func c03Arena(c *core.Ctx, pool *cfg.Pool, safe []cfg.Spec) {
+	r := c.Rng
+	a := &srcArena{}
+	const harmless = "abcdefghijklmnopqrstuvwx"
+	n := c.PerShard(c.N(12000, 600000))
+	for i := 0; i < n; i++ {
+		tm := c03ArenaTmpl[r.Intn(len(c03ArenaTmpl))]
+		hs := c03ArenaHostile[r.Intn(len(c03ArenaHostile))]
+		hs = padTo(hs, len(harmless), '"')
+		docA := []byte(strings.ReplaceAll(tm, "%P", harmless))
+		docB := []byte(strings.ReplaceAll(tm, "%P", hs))
+		sp := safe[r.Intn(len(safe))]
+		if i%3 == 0 {
+			sp = cfg.Spec{Ext: cfg.ExtAll, Attribute: true, AutoHeadingID: r.Intn(2) == 0, XHTML: r.Intn(2) == 0, HardWraps: r.Intn(2) == 0}
+		}
+		name := sp.Name()
+		md := pool.Get(sp)
+		steps := []arenaStep{{Doc: docA}, {Doc: docB}, {Doc: docA, Fresh: true}, {Doc: docA}}
+		c.Begin(name, docA)
+		outs := arenaRun(md, a, steps)
+		c.End()
+		c.Evals(len(steps))
+		c.Count("recycled_buffer_histories", 1)
+		for si, o := range outs {
+			if o == nil {
+				c.Count("conversion_failed_left_to_C01", 1)
+				continue
+			}
+			c.Count("outputs_tokenized", 1)
+			cl, lo, d := c03Verdict(sp, o, nil)
+			if cl == "" {
+				continue
+			}
+			c.Violation(&core.Violation{Class: cl, Locus: lo + ":recycled-source-buffer", Config: name, Input: steps[si].Doc, Script: arenaScript(steps),
+				Detail: fmt.Sprintf("one instance, the caller reuses its source buffer between conversions:\n%sstep %d: %s\noutput: %s", arenaDescribe(steps), si+1, d, q(o))})
+		}
 	}
 }
